@@ -205,7 +205,11 @@ pub fn family(tier: Tier) -> Vec<Frag> {
 }
 
 fn entries(code: &[u8], permissive: bool) -> Option<BTreeSet<(U, String)>> {
-    let o = analyze(code, sle::vm::Config::default().with_permissive_errors(permissive), &Vec::new(), lazy());
+    entries_cfg(code, sle::vm::Config::default().with_permissive_errors(permissive))
+}
+
+fn entries_cfg(code: &[u8], cfg: sle::vm::Config) -> Option<BTreeSet<(U, String)>> {
+    let o = analyze(code, cfg, &Vec::new(), lazy());
     if o.class != Class::Ok {
         return None;
     }
@@ -252,11 +256,25 @@ pub fn check_pair(a: &Frag, sa: U, b: &Frag, sb: U, d: Dispatcher) -> Result<Opt
 }
 
 fn check_pair_mode(a: &Frag, sa: U, b: &Frag, sb: U, d: Dispatcher, permissive: bool) -> Result<Option<usize>, Verdict> {
+    check_pair_cfg(a, sa, b, sb, d, sle::vm::Config::default().with_permissive_errors(permissive))
+}
+
+/// The composition relation under one VM configuration; only compared when all three analyses succeed (strict mode:
+/// a limit that cuts a path short is an error, so a success is a complete exploration).
+pub fn check_pair_cfg(a: &Frag, sa: U, b: &Frag, sb: U, d: Dispatcher, cfg: sle::vm::Config) -> Result<Option<usize>, Verdict> {
+    check_pair_padded(a, sa, b, sb, d, cfg, 0)
+}
+
+/// `padding` empty functions (bodies that stop at once) stand between the two fragments in the combined program.
+pub fn check_pair_padded(a: &Frag, sa: U, b: &Frag, sb: U, d: Dispatcher, cfg: sle::vm::Config, padding: usize) -> Result<Option<usize>, Verdict> {
     let ba = a.branches(sa);
     let bb = b.branches(sb);
     let mut both = ba.clone();
+    for _ in 0..padding {
+        both.push(vec![Tok::Op(crate::asm::op::STOP)]);
+    }
     both.extend(bb.clone());
-    let (Some(ea), Some(eb), Some(eab)) = (entries(&program(&ba, d), permissive), entries(&program(&bb, d), permissive), entries(&program(&both, d), permissive)) else {
+    let (Some(eab), Some(ea), Some(eb)) = (entries_cfg(&program(&both, d), cfg.clone()), entries_cfg(&program(&ba, d), cfg.clone()), entries_cfg(&program(&bb, d), cfg.clone())) else {
         return Ok(None);
     };
     // a fragment only touches its own slot, so alone it can only say something about that slot
@@ -383,6 +401,24 @@ impl Check for C11 {
                     }
                 }
             }
+            // the same relation at every gas limit up to one that no path reaches (strict mode: the three analyses either
+            // all explore everything or some of them fail), for a slice of the pairs
+            if chunk % 8 == 0 && bi < 2 {
+                for d in [Dispatcher::Selector, Dispatcher::LiteralGuards] {
+                    let (sa, sb) = slot_pairs[0];
+                    for (gas, padding) in (1..=400usize).flat_map(|g| [(g, 0usize), (g, 6)]) {
+                        let desc = json!({"a": format!("{a:?}"), "b": format!("{b:?}"), "slots": [sa.hex_min(), sb.hex_min()], "dispatcher": format!("{d:?}"), "ia": chunk, "ib": bi, "mode": "composition", "gas_limit": gas, "padding": padding});
+                        ctx.case(|| desc.clone());
+                        ctx.count("evaluations", 1);
+                        ctx.count("compositions_under_a_gas_limit", 1);
+                        match check_pair_padded(a, sa, b, sb, d, sle::vm::Config::default().with_gas_limit(gas), padding) {
+                            Ok(Some(_)) => ctx.distinct("nontrivial", crate::util::h64(&desc.to_string())),
+                            Ok(None) => ctx.count("no_layout", 1),
+                            Err(v) => ctx.violation(format!("{}:gas-limit", v.key), format!("{} (gas limit {gas})", v.what), desc),
+                        }
+                    }
+                }
+            }
             // renumbering of the two-fragment program
             if (chunk + bi) % if tier.thorough() { 1 } else { 3 } == 0 {
                 let t = renumber_targets();
@@ -419,7 +455,7 @@ impl Check for C11 {
             "fragment family of {n} single-variable code fragments with an abstract slot (7 representative idiom kinds x 3 access modes \
              x {} spellings{}, 4 uses (raw store, one-byte mask, signed compare, account address) of each of 17 environment opcodes and of 3 shared constants, 14 hand-written multi-evidence fragments: address use + zero test, caller stored + signed compare, counter, \
              one-byte flag, length / call target, timestamp + selector-sized field, a path aborted by a jump to an invalid constant target or by INVALID with a \
-             loaded value still on the stack, an internal setter that stores the word it finds on the stack, two reads of a field at the top of the slot that is masked again with a wider mask, a mapping element with a small constant key, a nested mapping with a constant outer key, a dynamic array at constant indices), each composition in strict and in permissive error mode. ALL ordered pairs (A, B) x 4 dispatcher shapes (selector compare, reversed, chained, literal conditions) \
+             loaded value still on the stack, an internal setter that stores the word it finds on the stack, two reads of a field at the top of the slot that is masked again with a wider mask, a mapping element with a small constant key, a nested mapping with a constant outer key, a dynamic array at constant indices), each composition in strict and in permissive error mode. A slice of the pairs also under every gas limit 1..400, with 0 and 6 empty functions between the two fragments (strict mode, compared whenever all three analyses succeed). ALL ordered pairs (A, B) x 4 dispatcher shapes (selector compare, reversed, chained, literal conditions) \
              (selector compare, reversed layout, two chained conditional jumps) x 2 slot assignments: layout(D(A,B)) must equal \
              layout(D(A)) u layout(D(B)) as entry sets, and layout(D(A)) must only have entries at A's slot. Renumbering: two-fragment programs x all 56 injective maps of their slots \
              into {{0, 1, 2, 77, 2^128+5, 2^255, 2^253, bytes32(\"vault.stakes\")}} (changes PUSH widths, so programs are re-assembled): layout(rho(P)) = rho(layout(P)). \
@@ -449,7 +485,13 @@ impl Check for C11 {
             let mut both = a.branches(sa);
             both.extend(b.branches(sb));
             println!("A = {a:?} at 0x{}, B = {b:?} at 0x{}\ncombined program: {}", sa.hex_min(), sb.hex_min(), hex(&program(&both, d)));
-            check_pair(a, sa, b, sb, d).map(|_| ())
+            match c.get("gas_limit").and_then(|g| g.as_u64()) {
+                Some(g) => {
+                    println!("gas limit: {g}");
+                    check_pair_padded(a, sa, b, sb, d, sle::vm::Config::default().with_gas_limit(g as usize), c["padding"].as_u64().unwrap_or(0) as usize).map(|_| ())
+                }
+                None => check_pair(a, sa, b, sb, d).map(|_| ()),
+            }
         } else {
             check_renumber(a, b, (h(&c["from"][0]), h(&c["from"][1])), (h(&c["to"][0]), h(&c["to"][1])), Dispatcher::Selector).map(|_| ())
         };
